@@ -29,8 +29,9 @@ MANIFEST_ENTRY = {
             "(names, kinds, classes, qualifiers, types, initial values, nesting, association) and the parser's library must equal it, "
             "in the canonical and in random spellings.",
     "note": "Trusted: Coq kernel, translator (precedence! block), extraction + driver, tools/gen_ast.py (the oracle for what a unit "
-            "means) and tools/debugtree.py (reads Rust's Debug output). Known finding: the base type of a structure-initialization "
-            "type declaration is not kept in the library. No axioms.",
+            "means) and tools/debugtree.py (reads Rust's Debug output). Known findings: the base type of a structure-initialization "
+            "type declaration is not kept in the library; the edge-detecting inputs of a PROGRAM are parsed and dropped. Libraries of "
+            "function blocks and programs are proved too (C01_library_faithful). No axioms.",
 }
 TRUSTED = [
     "Coq 8.16.1 kernel",
